@@ -421,7 +421,7 @@ fn body_shortcut(ch: &Ch) -> Run {
 
 pub fn prop(tier: Tier) -> Prop {
   let (items, dv, ds) = match tier {
-    Tier::Quick => (2, vec![Mode::Deviations(2), Mode::Deviations(3)], vec![Mode::Deviations(1), Mode::Deviations(2)]),
+    Tier::Quick => (2, vec![Mode::Deviations(2), Mode::Deviations(3)], vec![Mode::Deviations(1), Mode::Deviations(2), Mode::Deviations(3)]),
     Tier::Thorough => (3, vec![Mode::Deviations(3), Mode::Deviations(4), Mode::Deviations(5)], vec![Mode::Deviations(2), Mode::Deviations(3), Mode::Deviations(4)]),
   };
   Prop {
